@@ -20,9 +20,12 @@ RULE = ('family = one generated indexable pipeline (source, 1-3 stages from map 
         'position evaluation of an independent build of the upstream pipeline '
         '(no catch): survivors in order, the first foreign exception after exactly the '
         'surviving predecessors and as the very injected object. Plus: lazy filter, '
-        'eager filter and FilterException+catch agree for the same predicate. '
+        'eager filter and FilterException+catch agree for the same predicate. 5% of the '
+        'families put the catch (or prefetch(1, b, catch_filter_exception)) over an input '
+        'without random access (lazy filter, buffer-local shuffle, unbatch): a loud refusal '
+        'or exactly the examples whose evaluation did not raise, never a shortened stream. '
         'Non-trivial = a fault fired; distinct = distinct (pipeline, fault plan, mode).')
-PROBES = ['second_pass_differs_from_first', 'foreign_exception_propagated', 'caught_at_first_position',
+PROBES = ['refused_loudly_when_iterated', 'second_pass_differs_from_first', 'foreign_exception_propagated', 'caught_at_first_position',
           'caught_at_last_position', 'several_positions_dropped', 'subclass_caught',
           'items_iteration_with_drop', 'cache_below_catch_second_pass',
           'survivors_equal_the_abstract_model']
@@ -112,7 +115,116 @@ def _mk(rng, op, a, sid, offset):
     raise ValueError(op)
 
 
+def gen_refusable(rng):
+    """catch() over an input the library cannot index (a lazy filter or a
+    buffer-local shuffle below the raising stage): a loud refusal is fine, an
+    answer must be the right one - never a silently shortened stream"""
+    n = rng.randrange(1, 9)
+    base = {'mode': 'refusable', 'n': n, 'source': rng.choice(['list', 'dict']),
+            'lazy': rng.choice(['filter', 'filter', 'local_shuffle', 'unbatch']),
+            'mod': rng.randrange(2, 4), 'rem': rng.randrange(0, 2),
+            'catch': rng.choice(['filter', 'filter', 'value', ['filter', 'key'], 'filter_sub',
+                                 ['value', 'filter']]),
+            'warn': rng.random() < 0.25, 'via': rng.choice(['catch', 'catch', 'prefetch1'])}
+    caught = W.catch_spec_types(base['catch'])
+    kinds = [k for k in ('value', 'filter', 'filter_sub', 'key') if issubclass(W.EXC_KINDS[k], caught)]
+    cases = []
+    for p in range(n):
+        cases.append(dict(base, faults=[{'stage': 'u1', 'pos': p, 'exc': rng.choice(kinds)}]))
+    for _ in range(2):
+        cases.append(dict(base, faults=[{'stage': 'u1', 'pos': rng.randrange(n), 'exc': rng.choice(kinds)}
+                                        for _k in range(rng.randrange(2, 4))]))
+    cases.append(dict(base, faults=[]))
+    return cases
+
+
+def run_refusable(case):
+    import lazy_dataset
+    n = case['n']
+    spec = case['catch']
+    caught = W.catch_spec_types(spec)
+    violations, probes = [], {}
+    runs = []
+    with warnings.catch_warnings(record=True):
+        warnings.simplefilter('always')
+        ctx = W.set_ctx(W.Ctx(faults=case['faults']))
+        try:
+            if case['source'] == 'dict':
+                src = lazy_dataset.new({'k%d' % i: {'src': i} for i in range(n)})
+            else:
+                src = lazy_dataset.new([{'src': i} for i in range(n)])
+            pred = W.FilterFn('f', case['mod'], case['rem'])
+            up = src.map(W.MapFn('u0'))
+            if case['lazy'] == 'filter':
+                up = up.filter(pred, lazy=True)
+                ids = [i for i in range(n) if pred.verdict_of((i,))]
+            elif case['lazy'] == 'local_shuffle':
+                up = up.shuffle(reshuffle=True, buffer_size=1)     # buffer of one: source order
+                ids = list(range(n))
+            else:
+                up = up.batch(2).unbatch()
+                ids = list(range(n))
+            up = up.map(W.MapFn('u1'))
+            built = None
+            try:
+                arg = W.catch_spec_to_arg(spec) or ldc.FilterException
+                if case['via'] == 'catch':
+                    ds = up.catch(arg, warn=bool(case['warn']))
+                else:
+                    ds = up.prefetch(1, 2, catch_filter_exception=True if spec == 'filter' else arg)
+            except Exception as e:
+                built = type(e).__name__
+                probes['refused_at_construction'] = 1
+            ctx.armed = True
+            failing = {f['pos'] for f in case['faults']}
+            want = [W.norm({'f': 'u1', 'x': {'f': 'u0', 'x': {'src': i}}}) for i in ids
+                    if i not in failing]
+            if built is None:
+                for rep in range(2):
+                    out, end = [], 'exhausted'
+                    try:
+                        for x in ds:
+                            out.append(W.norm(x))
+                    except BaseException as e:
+                        end = 'injected' if any(e is r for r in ctx.raised) else 'refused'
+                        err = '%s: %s' % (type(e).__name__, W.short(str(e), 80))
+                    runs.append((out, end))
+                    if end == 'refused':
+                        probes['refused_loudly_when_iterated'] = 1
+                        if out != want[:len(out)]:
+                            violations.append(hist.viol(
+                                'wrong_examples_before_refusal', 'wrong_examples_before_refusal:' + case['via'],
+                                'pass %d delivered %s and then refused (%s); the pipeline yields %s'
+                                % (rep, W.short(out), err, W.short(want))))
+                        break
+                    if end == 'injected':
+                        violations.append(hist.viol(
+                            'kept_failing_example', 'selected_exception_propagated:non_indexable:' + case['via'],
+                            'pass %d: an exception of a selected type raised by the stage below the '
+                            'catch reached the consumer (%s) after %d examples' % (rep, err, len(out))))
+                        break
+                    probes['non_indexable_input_answered'] = 1
+                    if out != want:
+                        violations.append(hist.viol(
+                            'dropped_good_example' if len(out) < len(want) else 'wrong_examples',
+                            'non_indexable_input_answered_wrongly:' + case['via'],
+                            'pass %d over an input without random access ended normally with %d '
+                            'examples %s; the examples whose evaluation did not raise are %d: %s'
+                            % (rep, len(out), W.short(out), len(want), W.short(want))))
+                        break
+        finally:
+            fired_faults = dict(ctx.fired)
+            W.set_ctx(None)
+    fired = {'mode_refusable': 1, 'via_' + case['via']: 1, 'lazy_' + case['lazy']: 1}
+    fired.update(fired_faults)
+    return hist.outcome(case, nontrivial=True, key=hist.hkey(case), violations=violations,
+                        fired=fired, probes=probes, sample={'case': case, 'runs': W.short(runs, 200)},
+                        digest_extra=[runs, built])
+
+
 def gen(rng, tier, index):
+    if rng.random() < 0.05:
+        return gen_refusable(rng)
     if rng.random() < 0.12:
         return [{'mode': 'agree', 'n': rng.randrange(0, 9),
                  'source': rng.choice(['list', 'dict']),
@@ -246,6 +358,8 @@ def run_agree(case):
 def run(case):
     if case['mode'] == 'agree':
         return run_agree(case)
+    if case['mode'] == 'refusable':
+        return run_refusable(case)
     desc = case['desc']
     spec = case['catch']
     caught = W.catch_spec_types(spec)
@@ -433,6 +547,17 @@ def run(case):
 
 
 def shrink(case):
+    if case['mode'] == 'refusable':
+        for i in range(len(case['faults'])):
+            c = hist.clone(case)
+            del c['faults'][i]
+            yield c
+        if case['n'] > 1:
+            c = hist.clone(case)
+            c['n'] -= 1
+            c['faults'] = [f for f in c['faults'] if f['pos'] < c['n']]
+            yield c
+        return
     if case['mode'] != 'catch':
         if case['n'] > 0:
             c = hist.clone(case)
